@@ -20,7 +20,7 @@ HOOK_DEFINE = "H3_VERIF_SIM"   # MANIFEST.hooks.guard; no source file uses it
 
 SHIPPED = ["-DBUILDING_H3=1", "-DH3_PREFIX=", "-O2", "-g", "-DNDEBUG", "-D" + HOOK_DEFINE + "=1"]
 
-SIM_SOURCES = ["heap.cc", "statics.cc", "contain.cc", "op.cc", "gen.cc", "single.cc",
+SIM_SOURCES = ["heap.cc", "statics.cc", "ambient.cc", "contain.cc", "op.cc", "gen.cc", "single.cc",
                "c17.cc", "c16.cc", "minimize.cc", "main.cc"]
 COV_SOURCES = ["sched.cc", "trap.cc", "c18.cc"]
 
@@ -119,6 +119,7 @@ def build(variant, outdir):
     gen_header(incdir)
     cov = variant.startswith("cov")
     asan = variant.endswith("-asan")
+    dbg = variant.endswith("-dbg")   # same as cov but WITHOUT -DNDEBUG (assert-enabled builds are legitimate deployments)
     cc = "clang" if cov else "gcc"
     san = ["-fsanitize=address,undefined", "-fno-omit-frame-pointer", "-fno-sanitize-recover=undefined"] if asan else []
     if asan and not cov:
@@ -126,6 +127,9 @@ def build(variant, outdir):
         san = ["-fsanitize=address,undefined", "-fno-omit-frame-pointer"]
     simflags = ["-DH3_ALLOC_PREFIX=h3sim_"] + san
     refflags = list(san)
+    if dbg:
+        simflags.append("-UNDEBUG")
+        refflags.append("-UNDEBUG")
     if cov:
         simflags += ["-fsanitize-coverage=trace-pc-guard,pc-table", "-fno-pic"]
         refflags += ["-fno-pic"]
